@@ -16,7 +16,9 @@ CONSTANTS Builtins,      \* names of the builtins under test (taken from the rea
           TwoArgBuiltins, \* builtins that are also tried with every pair of shapes
           IndexCmds,     \* the index / element builtins
           IndexShapes,   \* argument shapes that are (mis-shapen) row, column and key selectors
-          TableStdin     \* stdin shapes that are tables / lists of records
+          TableStdin,    \* stdin shapes that are tables / lists of records
+          FlagPairs,     \* strings "builtin flag": flags that the source of the builtin's package declares (taken from the real tree)
+          FlagVals       \* hostile values for a flag (argument shapes)
 
 Outcomes == {"ok", "error"}                          \* the only outcomes the property allows
 Forbidden == {"panic", "crashed", "hung"}
@@ -30,8 +32,13 @@ Two == {[cmd |-> b, args |-> <<a1, a2>>, stdin |-> s] : b \in TwoArgBuiltins, a1
 \* (a pair decides between the streaming and the buffered path of the table indexer)
 Idx == {[cmd |-> b, args |-> <<a>>, stdin |-> s] : b \in IndexCmds, a \in IndexShapes, s \in TableStdin}
        \cup {[cmd |-> b, args |-> <<a1, a2>>, stdin |-> s] : b \in IndexCmds, a1 \in IndexShapes, a2 \in IndexShapes, s \in TableStdin}
+\* a declared flag followed by a hostile value (and optionally one more argument): the builtin's own option handling
+\* (an argument that is not a word of the flag table never reaches it)
+\* (cmd is the pair string: the renderer prints it as it is, builtin then flag)
+Flg == UNION {{[cmd |-> p, args |-> a, stdin |-> s] : a \in {<<v>>, <<v, "number">>, <<"number", v>>, <<v, "block">>}} :
+              p \in FlagPairs, v \in FlagVals, s \in {"none", "lines"}}
 Fam(S, f) == {[cmd |-> c.cmd, args |-> c.args, stdin |-> c.stdin, fam |-> f] : c \in S}
-Cases == Fam(Zero \cup One \cup Two, "table") \cup Fam(Idx, "index")
+Cases == Fam(Zero \cup One \cup Two, "table") \cup Fam(Idx, "index") \cup Fam(Flg, "flag")
 ASSUME Outcomes \cap Forbidden = {}
 ASSUME ndJsonSerialize("cases.ndjson", SetToSeq(Cases))
 =============================================================================
